@@ -215,7 +215,7 @@ def plan(tier):
     specs += [{'kind': 'triples', 'core': core_n, 'part': i, 'parts': tparts} for i in range(tparts)]
     rparts = 2 if tier == 'quick' else 16
     specs += [{'kind': 'rtriples', 'n': 60000 if tier == 'quick' else 600000, 'k': i} for i in range(rparts)]
-    specs += [{'kind': 'consumers', 'n': 500 if tier == 'quick' else 20000, 'k': i} for i in range(4 if tier == 'quick' else 16)]
+    specs += [{'kind': 'consumers', 'n': 2000 if tier == 'quick' else 20000, 'k': i} for i in range(4 if tier == 'quick' else 16)]
     assert n > 300
     return specs
 
